@@ -88,6 +88,7 @@ class TraceHeaderSet:
             lo = self.lo + start if (isinstance(self.lo, int) and isinstance(start, int)) else mk_int(zi(self.lo) + zi(start))
             return TraceHeaderSet(self.name, length, self.width, self.dtype, None, lo, self.tables)
         if isinstance(key, (int, SInt)): return Trace(self, key)
+        if isinstance(key, list) and all(isinstance(k, (int, SInt, core.SBV)) for k in key): return [Trace(self, k.as_int() if isinstance(k, core.SBV) else k) for k in key]   # contract: ths[list of rows] iterates over those rows in order
         raise core.NeedsContract('estraces stub: ths[%r]' % (key,))
     def __iter__(self):
         n = self.n if isinstance(self.n, int) else self.n.__index__()
